@@ -25,6 +25,7 @@ import json
 import math
 import os
 import re
+import warnings
 
 import numpy as np
 
@@ -42,7 +43,7 @@ FORMS_INV = ["TypeOK", "Orth", "NormRatio", "GramMinor", "FlagSpan", "Inertia", 
              "StdBasisIsJacobi", "EmitObs"]
 KERNEL_INV = ["ElimExact", "RankNullity", "Annihilated", "Independent", "RankSteps", "GramRank",
               "TransposeRank", "EmitObs"]
-SPHERE_INV = ["GeneralPosition", "SystemRegular", "Equidistant", "ShellCentre", "OrderFree", "EmitObs"]
+SPHERE_INV = ["GeneralPosition", "SystemRegular", "Equidistant", "ShellCentre", "SolveAgrees", "OrderFree", "EmitObs"]
 ARCS_INV = ["CosOrderTable", "ShortIsLib", "IncludeIsLib", "ArePermutations", "SwapFree", "ShortIsShort",
             "R2LDescends", "IncludeContains", "IncludeVsShort", "Equivariant", "R2LReflect", "EmitObs"]
 
@@ -150,7 +151,9 @@ def jkey(x):
 def call(f, *a, **k):
     """the spec says the call is in the domain and succeeds: an exception is a violation, not a crash"""
     try:
-        return f(*a, **k), None
+        with warnings.catch_warnings(), np.errstate(all="ignore"):
+            warnings.simplefilter("ignore")
+            return f(*a, **k), None
     except Exception as e:
         return None, "%s: %s" % (type(e).__name__, e)
 
@@ -268,6 +271,9 @@ def check_complement(V, F, X, cases, out, tag):
     if n - k == 0:
         return
     negc = cases[0]["neg"] - np.array([sum(1 for e in c["eps"] if e < 0) for c in cases])
+    # documented caveat of orthogonal_complement(normalize='form'): Gram-Schmidt on the SVD basis may
+    # meet null vectors when the form is indefinite on the complement -> domain = definite complement
+    definite = (negc == 0) | (negc == n - k)
     with np.errstate(all="ignore"):
         mx = np.abs(out).max(axis=(-1, -2))
         finite = np.isfinite(mx)
@@ -278,6 +284,8 @@ def check_complement(V, F, X, cases, out, tag):
         G = out @ F @ out.swapaxes(-1, -2)
         ok, sg = signs_of_gram(G, TOL * scale)
         sig_ok = ok & ((sg < 0).sum(axis=-1) == negc)
+        orth_ok |= ~definite
+        sig_ok |= ~definite
     for mask, clause in ((orth_ok, "orthogonal_complement.orthogonal_to_rows"),
                          (sig_ok, "orthogonal_complement.orthonormal_with_signature")):
         for i in np.nonzero(~mask)[0][:2]:
@@ -320,7 +328,7 @@ def replay_gs(run, V, recs, single_every):
                     V.add("gs:%s:k=%d:%s" % (fj, k, tag), "orthogonalize.shape",
                           dict(form=F.tolist(), got=list(out.shape), want=list(shp + (k, n)), shape=tag))
                 else:
-                    check_orth(V, F, Xs, Rs, out.reshape((-1, k, n)), cs, tag)
+                    check_orth(V, F, Xs, Rs, out.reshape((len(cs), k, n)), cs, tag)
             # find_isometry, free and oriented
             for fo in (False, True):
                 out, err = call(U.find_isometry, F.copy(), Xs.reshape(shp + (k, n)).copy(), fo)
@@ -336,7 +344,7 @@ def replay_gs(run, V, recs, single_every):
                           dict(form=F.tolist(), k=k, got=list(out.shape), want=list(shp + (n, n)), shape=tag,
                                force_oriented=fo, example_rows=cs[0]["rows"]))
                     continue
-                check_isometry(V, F, Xs, Rs, cs, fo, out.reshape((-1,) + out.shape[len(shp):]), tag)
+                check_isometry(V, F, Xs, Rs, cs, fo, out.reshape((len(cs),) + out.shape[len(shp):]), tag)
             # orthogonal_complement
             out, err = call(U.orthogonal_complement, Xs.reshape(shp + (k, n)).copy(), F.copy())
             run.evaluations += 1
@@ -351,7 +359,7 @@ def replay_gs(run, V, recs, single_every):
                           dict(form=F.tolist(), k=k, got=list(out.shape), want=list(shp + (n - k, n)), shape=tag,
                                example_rows=cs[0]["rows"]))
                 else:
-                    check_complement(V, F, Xs, cs, out.reshape((-1,) + out.shape[len(shp):]), tag)
+                    check_complement(V, F, Xs, cs, out.reshape((len(cs),) + out.shape[len(shp):]), tag)
         # single units (no batch axis), and the bare vector for k = 1
         for i in range(0, B, single_every):
             c = cases[i]
@@ -703,9 +711,9 @@ def run(run, replay=None):
             kernel_job("kernel_n2", 2, 1, 3, workers=2),
             kernel_job("kernel_n3", 3, 1, 3, supp=2, workers=W),
             kernel_job("kernel_n5_sim", 5, 1, 6, supp=3, workers=W, simulate=60, depth=8),
-            sphere_job("sphere_n2_box", 2, 2, False, workers=W, order_free=False),
+            sphere_job("sphere_n2_box", 2, 2, False, workers=W),
             sphere_job("sphere_n2_shell", 2, 0, True, 25, 5, workers=2),
-            sphere_job("sphere_n3_shell", 3, 1, True, 9, 3, workers=W, simulate=150, depth=6),
+            sphere_job("sphere_n3_shell", 3, 1, True, 9, 3, workers=W, simulate=12, depth=6),
             arcs_job("arcs_12", 12, workers=W),
         ]
         single_every = 23
@@ -738,7 +746,10 @@ def run(run, replay=None):
         ]
         single_every = 7
         parallel = 3
+    import time
+    t0 = time.time()
     recs = run_jobs(run, jobs, parallel)
+    t_tlc = time.time() - t0
     V = Viol(run)
     forms = [o for k, v in recs.items() if k.startswith("forms") for o in v]
     kern = [o for k, v in recs.items() if k.startswith("kernel") for o in v]
@@ -751,5 +762,6 @@ def run(run, replay=None):
     for k, v in sorted(recs.items()):
         if k.startswith("arcs"):
             n_arc += replay_arcs(run, V, v, single_every)
+    run.extra["phase_wall_s"] = dict(tlc=round(t_tlc, 1), replay=round(time.time() - t0 - t_tlc, 1))
     run.extra["records"] = dict(gram_schmidt_states=n_gs, forms=n_forms, kernels=n_ker, spheres=n_sph, arc_cases=n_arc)
     run.extra["violations_by_clause_family"] = dict(V.count)
